@@ -366,7 +366,7 @@ func init() {
 					bare bool
 				}
 				parts := []part{{prevCase.Body, prevCase.R, false}, {c.Body[:28], c.R, true}, {c.Body, c.R, false}}
-				hb := []byte{0, 3, 0}
+				hb := []byte{0, 3, byte(len(c.Body) % 2)} // (type 1: a batch re-reported from a blind area - still item by item, in wire order)
 				for _, p := range parts {
 					hb = binary.BigEndian.AppendUint16(hb, uint16(len(p.body)))
 					hb = append(hb, p.body...)
@@ -388,6 +388,38 @@ func init() {
 						}
 						if f, d := cmpItems(exp, t7.Items[k].T0x0200AdditionDetails); f != "" {
 							put("0x0704 mixed-batch "+f, fmt.Sprintf("item %d of [%x | base only | %x]: %s", k, []byte(prevCase.Body), []byte(c.Body), d), []locCase{*prevCase, c})
+							return nil
+						}
+					}
+				}
+			}
+			// carrier 2c: a batch of type 1 (re-reported from a blind area) whose items are not in time order on the wire: item i of
+			// the decoded batch is item i of the wire, each equal to the same bytes decoded as a 0x0200 of their own
+			{
+				withTime := func(tm []byte) []byte {
+					b := append([]byte{}, c.Body...)
+					copy(b[22:28], tm)
+					return b
+				}
+				order := [][]byte{withTime([]byte{0x99, 0x12, 0x31, 0x23, 0x59, 0x59}), withTime([]byte{0x00, 0x01, 0x01, 0x00, 0x00, 0x00}), withTime([]byte{0x24, 0x06, 0x15, 0x12, 0x00, 0x00})}
+				ob := []byte{0, 3, 1}
+				for _, b := range order {
+					ob = binary.BigEndian.AppendUint16(ob, uint16(len(b)))
+					ob = append(ob, b...)
+				}
+				if len(ob) <= 1023 {
+					var t7 model.T0x0704
+					if p := protect(func() { err = t7.Parse(jtBody(ob)) }); p != "" || err != nil || len(t7.Items) != 3 {
+						put("0x0704 blind-area-batch-not-parsed", fmt.Sprint(p, err, len(t7.Items)), c)
+						return nil
+					}
+					for k, b := range order {
+						var one model.T0x0200
+						if e1 := one.Parse(jtBody(b)); e1 != nil {
+							continue
+						}
+						if one.T0x0200LocationItem.DateTime != t7.Items[k].T0x0200LocationItem.DateTime {
+							put("0x0704 blind-area-batch item-order", fmt.Sprintf("item %d of the wire has time %s, item %d of the decoded batch %s", k, one.T0x0200LocationItem.DateTime, k, t7.Items[k].T0x0200LocationItem.DateTime), c)
 							return nil
 						}
 					}
